@@ -104,6 +104,7 @@ type runOut struct {
 	FiredAt                int64 // logical clock (gate index) when the fault fired
 	HandshakeW             int64 // client bytes written by the handshake
 	HandshakeR             int64 // server bytes delivered during the handshake
+	InjectedAfterEnd       bool
 	WrittenAtReturn        int64
 	PendingAtReturn        int
 	SrvErrAtReturn         error
@@ -163,6 +164,11 @@ func runScenarioWith(sc scn, seed int64, f *fault, readTimeout time.Duration, ba
 		exc = append(exc, ref.Exception{Code: int32(0x105 + 0x100*i - 4*(i%2)), Name: fmt.Sprintf("DB::Cause%d", i), Message: "nested cause", Stack: ""})
 	}
 	fire := func(g string) {
+		if sim.Conn.FinalStarted() {
+			// the response's own final packet is already on its way into the client: whatever is
+			// injected now comes after the end of the query
+			out.InjectedAfterEnd = true
+		}
 		switch f.Kind {
 		case "exception", "exception+write-error":
 			sim.Conn.Locked(func() { sim.Srv.Aborted = true })
@@ -282,7 +288,9 @@ func runScenarioWith(sc scn, seed int64, f *fault, readTimeout time.Duration, ba
 		} else {
 			ps = append(ps, data(2), simnet.PacketEnd())
 		}
-		return withGates(ps...)
+		items := withGates(ps...)
+		items[len(items)-1].Final = true
+		return items
 	}
 	script.OnData = func(i int, b *ref.Block) []simnet.Item {
 		if sc.Telemetry {
@@ -291,10 +299,14 @@ func runScenarioWith(sc scn, seed int64, f *fault, readTimeout time.Duration, ba
 		return nil
 	}
 	script.OnDataEnd = func() []simnet.Item {
+		var items []simnet.Item
 		if sc.EndsExc {
-			return withGates(prog(), simnet.PacketException(exc))
+			items = withGates(prog(), simnet.PacketException(exc))
+		} else {
+			items = withGates(prog(), simnet.PacketEnd())
 		}
-		return withGates(prog(), simnet.PacketEnd())
+		items[len(items)-1].Final = true
+		return items
 	}
 	sim.Srv.InputExpected = func(*ref.Query) bool { return sc.Insert }
 
